@@ -45,6 +45,10 @@ type crashProgram struct {
 	Drained bool
 	// SlowFlusher delays the flush goroutine at its schedule points (free-running programs only)
 	SlowFlusher bool
+	// RestartEvery > 0: the workload closes and reopens the database after every so many
+	// transactions (clean restarts inside the run: crash points fall into Close and into the
+	// recovery of a directory with history)
+	RestartEvery int
 }
 
 const delMark = "\x00<del>"
@@ -83,6 +87,9 @@ func genProgram(seed int64, flavour string, drained bool, writers int, ntx int) 
 		p.Cfg.MemtableByteThreshold = 120
 		profile = "windowed"
 		nk = 24
+	}
+	if flavour == "restarts" {
+		p.RestartEvery = 5 + r.Intn(6)
 	}
 	if flavour == "closepending" {
 		// free-running, slow flusher, room in the queue: Close is called with several flushes pending
@@ -275,7 +282,20 @@ func crashRunMain(args []string) int {
 		wg.Add(1)
 		go func(w int) {
 			defer wg.Done()
-			for _, t := range p.Txns[w] {
+			for ti, t := range p.Txns[w] {
+				if p.RestartEvery > 0 && p.Writers == 1 && ti > 0 && ti%p.RestartEvery == 0 {
+					kill.mu.Lock()
+					kill.phase = "close"
+					kill.mu.Unlock()
+					db.Close()
+					kill.mu.Lock()
+					kill.phase = "reopen"
+					kill.mu.Unlock()
+					db = eng.Open(dir, p.Cfg)
+					kill.mu.Lock()
+					kill.phase = "workload"
+					kill.mu.Unlock()
+				}
 				ht := t
 				ht.Writes = hexMap(t.Writes)
 				b, _ := json.Marshal(ht)
@@ -929,6 +949,7 @@ func genCrash(focus, tier string, seed int64) []core.Case {
 			add(1, spec{"plain", 0, 1, 30, 8, 2})
 			add(1, spec{"plain", 0, 2, 16, 8, 2})
 			add(1, spec{"closepending", 0, 1, 14, 8, 1})
+			add(1, spec{"restarts", 1, 1, 24, 8, 1})
 			seqEvery = 24
 		} else {
 			add(24, spec{"plain", 1, 1, 40, 16, 1})
@@ -937,6 +958,7 @@ func genCrash(focus, tier string, seed int64) []core.Case {
 			add(10, spec{"plain", 0, 3, 20, 16, 1})
 			add(12, spec{"closepending", 0, 1, 24, 16, 1})
 			add(8, spec{"bigtxn", 1, 1, 24, 16, 1})
+			add(10, spec{"restarts", 1, 1, 40, 16, 1})
 			seqEvery, depth3 = 6, 1
 		}
 	case "C04":
